@@ -392,7 +392,8 @@ impl VTreeManager {
 
     /// produces the number of variables allocated by this vtree
     pub fn num_vars(&self) -> usize {
-        self.vtree_root().all_vars().into_iter().max().unwrap()
+        // labels are 0-based: the count is the largest label plus one
+        self.vtree_root().all_vars().into_iter().max().unwrap() + 1
     }
 }
 
